@@ -15,7 +15,7 @@ BUDGET = os.environ.get("SWEEP_QUICK_S", "40")
 
 
 def run(patch, prop):
-    env = dict(os.environ, SEED_WT="/var/tmp/sweepwt", VERIF_QUICK_S=BUDGET, TAILN="40")
+    env = dict(os.environ, SEED_WT=os.environ.get("SWEEP_WT", "/var/tmp/sweepwt"), VERIF_QUICK_S=BUDGET, TAILN="40")
     t0 = time.time()
     r = subprocess.run([os.path.join(VERIF, "tools/seedrun.sh"), patch, prop], capture_output=True, text=True, env=env)
     out = r.stdout + r.stderr
@@ -45,7 +45,7 @@ def main():
         print(rows[-1][:3], flush=True)
     # merge with rows of earlier partial sweeps
     table = {}
-    rp = os.path.join(SEEDED, "RESULTS.md")
+    rp = os.environ.get("SWEEP_OUT") or os.path.join(SEEDED, "RESULTS.md")
     if os.path.exists(rp):
         for l in open(rp):
             f = [c.strip() for c in l.strip().strip("|").split("|")]
